@@ -224,6 +224,18 @@ func BuildTx(kr *Keyring, s TxSpec, prior Prior) (f TxFacts) {
 			f.Fee = big.NewInt(1)
 		}
 		honest = false
+	case s.Mut == "feecoin":
+		// a coin of the second denomination is added to the signed fee (coin sets are sorted by denomination)
+		has := false
+		for _, c := range tx.Fee {
+			has = has || c.Denom == DustDenom
+		}
+		if !has {
+			tx.Fee = append(sdk.Coins{sdk.Coin{Denom: DustDenom, Amount: sdk.NewInt(3)}}, tx.Fee...)
+		} else {
+			tx.Fee = sdk.Coins{sdk.Coin{Denom: sdk.DefaultStakeDenom, Amount: sdk.NewInt(1)}}
+		}
+		honest = false
 	case s.Mut == "memo":
 		tx.Memo = tx.Memo + "x"
 		honest = false
